@@ -12,7 +12,7 @@ import (
 
 func TestC11(t *testing.T) {
 	runProp(t, "C11", func(t *rapid.T) *core.Case {
-		c := drawGeneral(t, gen.Profile{MaxDepth: 3}, gen.WindowOpts{}, gen.DataOpts{Specials: true, MaxSeries: 40, Histogram: true, Big: true})
+		c := drawGeneral(t, gen.Profile{MaxDepth: 3, Nameless: true}, gen.WindowOpts{}, gen.DataOpts{Specials: true, MaxSeries: 40, Histogram: true, Big: true, Twins: true})
 		c.Shuffle = uint64(rapid.IntRange(1, 1<<30).Draw(t, "perm"))
 		// >=3 distinct GOMAXPROCS incl. 1 and an odd shard count
 		c.Procs = 1
@@ -52,7 +52,7 @@ var c16Contexts = []string{
 
 func TestC16(t *testing.T) {
 	runProp(t, "C16", func(t *rapid.T) *core.Case {
-		c := drawGeneral(t, gen.Profile{MaxDepth: 4}, gen.WindowOpts{}, gen.DataOpts{Specials: true, MaxSeries: 8, Histogram: true})
+		c := drawGeneral(t, gen.Profile{MaxDepth: 4, Nameless: true}, gen.WindowOpts{}, gen.DataOpts{Specials: true, MaxSeries: 8, Histogram: true, Twins: true})
 		if rapid.IntRange(0, 2).Draw(t, "twinsel") == 0 {
 			sel := rapid.SampledFrom([]string{"m", "n", `m{a="1"}`, `m{a=~"1|2",b!=""}`, `k{c!~"3"}`}).Draw(t, "sel")
 			n := rapid.IntRange(2, 3).Draw(t, "nctx")
@@ -86,7 +86,7 @@ func TestC19(t *testing.T) {
 
 func TestC18(t *testing.T) {
 	runProp(t, "C18", func(t *rapid.T) *core.Case {
-		c := drawGeneral(t, gen.Profile{MaxDepth: 4}, gen.WindowOpts{}, gen.DataOpts{Specials: true, MaxSeries: 12, Histogram: true})
+		c := drawGeneral(t, gen.Profile{MaxDepth: 4, Nameless: true}, gen.WindowOpts{}, gen.DataOpts{Specials: true, MaxSeries: 12, Histogram: true, Twins: true})
 		c.Delay = uint64(rapid.IntRange(0, 1<<20).Draw(t, "delay"))
 		return c
 	})
